@@ -199,6 +199,9 @@ pub enum Outcome {
     CrcError,
     HeaderError,
     Preamble,
+    /// a false preamble (or a valid header) followed by the symbol timeout before the host has read the status:
+    /// both flags are latched when the host looks
+    PreambleTimeout,
 }
 
 const WAKE_COLD_US: u64 = 3_500; // datasheet table 8-2: sleep (cold) -> STDBY_RC 3.5 ms
@@ -796,10 +799,10 @@ impl Chip126x {
                         }
                         true
                     }
-                    Outcome::Timeout => {
+                    Outcome::Timeout | Outcome::PreambleTimeout => {
                         if matches!(kind, RxKind::Single | RxKind::Timed) {
                             env.now_us += 20_000;
-                            self.raise(IRQ_TIMEOUT);
+                            self.raise(IRQ_TIMEOUT | if out == Outcome::PreambleTimeout { IRQ_PREAMBLE | IRQ_HEADER_VALID } else { 0 });
                             self.cmd_status = 3;
                             self.mode = Mode::StdbyRc;
                             true
